@@ -1,5 +1,198 @@
-//! (stub)
+//! C05 — text round trip and formatter contract.
+
 use crate::common::*;
-use serde_json::Value;
-pub fn replay(_c: &Value) -> Result<(), String> { Err("not implemented".into()) }
-pub fn run(_ctx: &Ctx) -> Report { Report::new("model_checking") }
+use crate::corpus;
+use crate::hashobj::*;
+use refmodel::text as rt;
+use serde_json::{json, Value};
+use ssdeep::{FuzzyHash, FuzzyHashOperationError, LongFuzzyHash, LongRawFuzzyHash, RawFuzzyHash};
+
+const TYPES: [&str; 4] = ["RawFuzzyHash", "LongRawFuzzyHash", "FuzzyHash", "LongFuzzyHash"];
+
+/// One object: all formatter routes agree with the reference formatter; the
+/// caller-buffer form honours its contract for the given buffer lengths; the
+/// text parses back to an equal object.
+fn check_object<T: Plain>(log: u8, bh1: &[u8], bh2: &[u8], all_lengths: bool) -> Result<(), String> {
+    let (c1, c2) = if T::NORM { (refmodel::normalize(bh1), refmodel::normalize(bh2)) } else { (bh1.to_vec(), bh2.to_vec()) };
+    let h = guarded(|| T::near_raw(log, &c1, &c2))?;
+    let exp = rt::format(log, &c1, &c2);
+    let l = guarded(|| h.len_in_str())?;
+    if l != exp.len() {
+        return Err(format!("len_in_str {} != {}", l, exp.len()));
+    }
+    if l > T::MAX_LEN_IN_STR || T::MAX_LEN_IN_STR > ssdeep::MAX_LEN_IN_STR {
+        return Err(format!("len_in_str {} exceeds the advertised maximum {}", l, T::MAX_LEN_IN_STR));
+    }
+    let s1 = guarded(|| h.string())?;
+    let s2 = guarded(|| format!("{}", h))?;
+    let s3 = guarded(|| h.into_string())?;
+    if s1 != exp || s2 != exp || s3 != exp {
+        return Err(format!("text routes disagree: to_string={} Display={} String::from={} expected={}", s1, s2, s3, exp));
+    }
+    let maxlen = ssdeep::MAX_LEN_IN_STR + 8;
+    let lens: Vec<usize> = if all_lengths {
+        (0..=maxlen).collect()
+    } else {
+        let mut v = vec![0, l.saturating_sub(1), l, l + 1, maxlen];
+        v.dedup();
+        v
+    };
+    for &bl in &lens {
+        let mut buf = vec![0xAAu8; bl];
+        let r = guarded(|| h.store(&mut buf))?;
+        if bl < l {
+            if r != Err(FuzzyHashOperationError::StringizationOverflow) {
+                return Err(format!("buffer {} < {}: result {:?}", bl, l, r));
+            }
+            if buf.iter().any(|&b| b != 0xAA) {
+                return Err(format!("buffer of length {} (too small) was written to", bl));
+            }
+        } else {
+            if r != Ok(l) {
+                return Err(format!("buffer {} >= {}: result {:?}", bl, l, r));
+            }
+            if &buf[..l] != exp.as_bytes() {
+                return Err(format!("buffer content {} != {}", show(&buf[..l]), exp));
+            }
+            if buf[l..].iter().any(|&b| b != 0xAA) {
+                return Err(format!("bytes beyond the text were modified (buffer {})", bl));
+            }
+        }
+    }
+    let back = guarded(|| T::parse_str(&exp))?.map_err(|e| format!("own text {} does not parse: {:?}", exp, e))?;
+    if back != h || !back.full_eq(&h) || back.string() != exp {
+        return Err(format!("round trip gives a different object: {} -> {}", exp, back));
+    }
+    Ok(())
+}
+
+/// One accepted text: raw types reproduce it up to the comma; normalising
+/// types give the run-collapsed text.
+fn check_text<T: Plain>(t: &[u8]) -> Result<&'static str, String> {
+    let rule = rt::Rule { cap1: 64, cap2: T::CAP2, count_normalized: T::NORM && !crate::c04::STRICT, strict: crate::c04::STRICT };
+    let p = match rt::parse(t, rule) {
+        Ok(p) => p,
+        Err(_) => return Ok("not-accepted"),
+    };
+    let h = guarded(|| T::parse_bytes(t))?.map_err(|e| format!("accepted text rejected: {:?}", e))?;
+    let s = guarded(|| h.string())?;
+    if T::NORM {
+        let exp = rt::format(p.log, &refmodel::normalize(&p.bh1), &refmodel::normalize(&p.bh2));
+        if s != exp {
+            return Err(format!("normalising type gives {} expected run-collapsed {}", s, exp));
+        }
+    } else if s.as_bytes() != &t[..p.end] {
+        return Err(format!("raw type gives {} but the text up to the comma is {}", s, show(&t[..p.end])));
+    }
+    Ok("accepted")
+}
+
+fn check_object_ty(ty: usize, log: u8, bh1: &[u8], bh2: &[u8], all: bool) -> Result<(), String> {
+    match ty {
+        0 => check_object::<RawFuzzyHash>(log, bh1, bh2, all),
+        1 => check_object::<LongRawFuzzyHash>(log, bh1, bh2, all),
+        2 => check_object::<FuzzyHash>(log, bh1, bh2, all),
+        _ => check_object::<LongFuzzyHash>(log, bh1, bh2, all),
+    }
+}
+fn check_text_ty(ty: usize, t: &[u8]) -> Result<&'static str, String> {
+    match ty {
+        0 => check_text::<RawFuzzyHash>(t),
+        1 => check_text::<LongRawFuzzyHash>(t),
+        2 => check_text::<FuzzyHash>(t),
+        _ => check_text::<LongFuzzyHash>(t),
+    }
+}
+
+pub fn replay(c: &Value) -> Result<(), String> {
+    let ty = TYPES.iter().position(|n| Some(*n) == c["type"].as_str()).ok_or("type")?;
+    if let Some(t) = c["text_hex"].as_str() {
+        return check_text_ty(ty, &unhex(t)).map(|_| ());
+    }
+    let log = c["log"].as_u64().ok_or("log")? as u8;
+    let bh1 = unhex(c["bh1"].as_str().ok_or("bh1")?);
+    let bh2 = unhex(c["bh2"].as_str().ok_or("bh2")?);
+    check_object_ty(ty, log, &bh1, &bh2, true)
+}
+
+pub fn run(ctx: &Ctx) -> Report {
+    let mut rep = Report::new("model_checking");
+    let thorough = ctx.tier == Tier::Thorough;
+    for ty in 0..4 {
+        let cap2 = if ty % 2 == 0 { 32 } else { 64 };
+        let mut corp = corpus::hash_corpus(cap2, thorough);
+        if ty >= 2 {
+            // normalising types: distinct raw contents may collapse to the same object
+            for c in corp.iter_mut() {
+                c.1 = refmodel::normalize(&c.1);
+                c.2 = refmodel::normalize(&c.2);
+            }
+            corp.sort();
+            corp.dedup();
+        }
+        let stride_all = ctx.tier.pick(40usize, 4);
+        let shards = 128;
+        let per = (corp.len() + shards - 1) / shards;
+        let acc = par_shards(shards, |s, acc| {
+            for i in (s * per)..((s + 1) * per).min(corp.len()) {
+                let (log, a, b) = &corp[i];
+                let all = i % stride_all == 0 || a.len() + b.len() >= 64 + cap2 - 1;
+                acc.evaluations += 1;
+                acc.nontrivial += 1;
+                acc.bump(if all { "every-buffer-length-0..max+8" } else { "border-buffer-lengths" });
+                if let Err(e) = check_object_ty(ty, *log, a, b, all) {
+                    acc.violation(
+                        format!("{} object {}", TYPES[ty], rt::format(*log, a, b)),
+                        e,
+                        json!({"type": TYPES[ty], "log": log, "bh1": hex(a), "bh2": hex(b)}),
+                    );
+                }
+                if i == corp.len() - 1 {
+                    acc.sample(json!({"type": TYPES[ty], "object": rt::format(*log, a, b)}));
+                }
+            }
+        });
+        acc.into_report(&mut rep, &format!("objects_{}", TYPES[ty]));
+    }
+    // accepted texts of the C04 grammar corpus
+    let (texts, nbase) = crate::c04::corpus(false);
+    let stride = ctx.tier.pick(3usize, 1);
+    let texts: Vec<&Vec<u8>> = texts.iter().step_by(stride).collect();
+    let shards = 128;
+    let per = (texts.len() + shards - 1) / shards;
+    let acc = par_shards(shards, |s, acc| {
+        for i in (s * per)..((s + 1) * per).min(texts.len()) {
+            for ty in 0..4 {
+                match check_text_ty(ty, texts[i]) {
+                    Ok(o) => {
+                        if o == "accepted" {
+                            acc.evaluations += 1;
+                            acc.nontrivial += 1;
+                        }
+                        acc.bump(&format!("{}:{}", TYPES[ty], o));
+                    }
+                    Err(e) => {
+                        acc.evaluations += 1;
+                        acc.violation(
+                            format!("{} text={}", TYPES[ty], show(&texts[i][..texts[i].len().min(90)])),
+                            e,
+                            json!({"type": TYPES[ty], "text_hex": hex(texts[i]), "text": show(texts[i])}),
+                        );
+                    }
+                }
+            }
+            if i % 100_000 == 11 {
+                acc.sample(json!({"text": show(texts[i])}));
+            }
+        }
+    });
+    acc.into_report(&mut rep, "accepted_texts_reformat");
+    rep.set("text_corpus_size", texts.len());
+    rep.set("text_corpus_grammar_part", nbase);
+    rep.set("exhaustive", true);
+    rep.set(
+        "rule",
+        "objects: the hash corpus HASH(T) of each plain type (log in {0,30} x block-hash families (all strings <=5 over {A,B,/}; one run of every length at every position; two runs; capacity lengths) x 12 small partners, plus all 31 logs); per object to_string / Display / String::from / store_into_bytes against the reference formatter, buffers of every length 0..max+8 for a strided subset and all near-capacity objects, border lengths for the rest; round trip through the parser.  texts: every text of the C04 corpus the grammar accepts is parsed and formatted again.  Objects and texts are de-duplicated; distinct_nontrivial counts objects plus accepted (text, type) pairs.",
+    );
+    rep
+}
